@@ -164,6 +164,7 @@ func runSyncCheck(prop, monitor, tier, replay string) int {
 		rule += "non-trivial = at least one pull that created, fast-forwarded or merged an entity; distinct = distinct shape signature as for C01; every pull is checked by the three-snapshot monitor"
 	}
 	rule += "; plus cache-level sessions (two long-lived RepoCache instances sharing a remote: edits through BugCache, RepoCache.Fetch/Pull/MergeAll/Push, pulls into loaded bugs and with staged operations, eviction, reopen) judged by the same oracle on what the cache serves"
+	r.Extra("added_in_seeding_round_6", "pull monitor (C01/C02/C11): a pull whose remote history is contained in the local one (equal / local-ahead, also through the second parent of an earlier merge commit) must not move the ref")
 	return r.Finish(rule, 10, []string{
 		"op-id sets and DAG facts come from the independent gitraw reader over repository.RepoData primitives",
 		"all remote data in these worlds is produced by git-bug's own editing API, hence valid",
